@@ -53,11 +53,22 @@ func (tc *tokenConverter) convert(tokens []models.TokenWithSpan) (*ConversionRes
 		t := t
 		if expanded := tc.handleCompoundToken(t); len(expanded) > 0 {
 			tc.buffer = append(tc.buffer, expanded...)
-			for range expanded {
+			for i, e := range expanded {
+				// The words of a compound keyword (GROUP BY, LEFT JOIN ...) may stand on
+				// different lines. The first one begins where the compound begins, the
+				// last one ends where it ends; keywords are ASCII, so each is as many
+				// columns wide as its literal is long.
+				start, end := t.Start, t.End
+				if i == 0 && len(expanded) > 1 {
+					end = models.Location{Line: t.Start.Line, Column: t.Start.Column + len(e.Literal)}
+				}
+				if i == len(expanded)-1 && i > 0 && t.End.Column > len(e.Literal) {
+					start = models.Location{Line: t.End.Line, Column: t.End.Column - len(e.Literal)}
+				}
 				positions = append(positions, TokenPosition{
 					OriginalIndex: originalIndex,
-					Start:         t.Start,
-					End:           t.End,
+					Start:         start,
+					End:           end,
 					SourceToken:   &t,
 				})
 			}
